@@ -366,11 +366,19 @@ def real_ops_case(ctx, seed, r):
                     ds.append(node.overwrite(MutableData(data)))
                 elif kind == "modify":
                     suffix = b"+m%d" % j
+                    # half of the modifiers hit the uncoordinated-write retry branch once (as
+                    # allmydata's own tests provoke it): the retry must stay inside this operation
+                    collide = r.random() < 0.5
+                    state = {"calls": 0}
 
-                    def modifier(old, servermap, first_time, suffix=suffix):
+                    def modifier(old, servermap, first_time, suffix=suffix, collide=collide, state=state):
+                        state["calls"] += 1
+                        if collide and state["calls"] == 1:
+                            from allmydata.mutable.common import UncoordinatedWriteError
+                            raise UncoordinatedWriteError("simulated")
                         return old + suffix
                     expect = expect + suffix
-                    ds.append(node.modify(modifier))
+                    ds.append(node.modify(modifier, backoffer=lambda n, f: defer.succeed(None)))
                 elif kind == "read":
                     reads_expected.append((j, expect))
                     ds.append(node.download_best_version())
